@@ -123,6 +123,10 @@ func runCheck(repo, verif, prop, tier, keep string, claim bool) int {
 	t0 := time.Now()
 	seed, _ := strconv.Atoi(os.Getenv("VERIF_SEED"))
 	evPath := filepath.Join(verif, "evidence", prop+".json")
+	if noEvidence {
+		evPath = filepath.Join(os.TempDir(), fmt.Sprintf("gvc-selftest-%d-%s.json", os.Getpid(), prop))
+		defer os.Remove(evPath)
+	}
 	os.MkdirAll(filepath.Dir(evPath), 0o755)
 	os.Remove(evPath)
 	fail := func(msg string) int {
@@ -366,6 +370,29 @@ func runCheck(repo, verif, prop, tier, keep string, claim bool) int {
 			}
 		}
 	}
+	checked := map[string]bool{}
+	for _, fr := range runs {
+		checked[fr.key] = true
+	}
+	for _, fr := range runs {
+		if fr.enc == nil {
+			continue
+		}
+		for k := range fr.enc.usedContracts {
+			if !checked[k] {
+				c := w.CS.Funcs[k]
+				kind := "contract assumed at call sites, body checked under another property or not at all: "
+				if c != nil && c.Extern {
+					kind = "trusted external contract: "
+				} else if c != nil && c.Iface {
+					kind = "interface-method contract (assumed for implementers not under contract): "
+				} else if c != nil && c.Trusted {
+					kind = "trusted contract (body not checked): "
+				}
+				assume[kind+shortFuncName(k)] = true
+			}
+		}
+	}
 	var assumptions []string
 	for a := range assume {
 		assumptions = append(assumptions, a)
@@ -429,6 +456,9 @@ func confined(w *World, fr *funcRun, r *Result, kf *KnownFinding, tier string, s
 
 func writeReplay(verif, prop, ob string, info map[string]interface{}) string {
 	dir := filepath.Join(verif, "replays", prop)
+	if noEvidence {
+		dir = filepath.Join(os.TempDir(), fmt.Sprintf("gvc-selftest-replays-%d", os.Getpid()), prop)
+	}
 	os.MkdirAll(dir, 0o755)
 	name := mangle(ob)
 	if len(name) > 150 {
